@@ -29,6 +29,7 @@ RULE = ("ids: 1..16 positions (uniform, poles, seam, special longitudes, octahed
         "triangle edge at some depth >= 2; circle covering >= 4 leaf triangles; pair count with >= 2 "
         "non-empty bins. Distinct = distinct case JSON."
         " The per-point scale is passed in every container kind (f8, f4, byte-swapped, strided, list); bincount is called twice with the same precomputed id objects.")
+RULE += (" " + 'Also: a second lookup_id on the same HTM object (same number of positions, reversed) and the earlier id array compared with its copy; a lookup between computing and using precomputed ids.')
 ASSUMPTIONS = [
     "longitudes are in [0, 360], latitudes in [-90, 90] (positions on the sphere); no NaN/inf",
     "a returned triangle 'contains' the position up to 0.5% of the triangle's edge length + 1e-9 deg "
